@@ -115,7 +115,8 @@ theorem C04 (L : Layout) (hL : NoAbs L) (x : Sys) (hx : ReachableEv L x) (k : Ke
   generalize hs0 : pressPrep x.s k = s0 at *
   have hc1 : Clean (afterConsume s0 m) := ⟨hc0.abs, hc0.trig⟩
   rw [addPhase2_clean k m hc1 (afterConsume_clear s0 m)]
-  simp only [hact, if_true]
+  -- (fix of D7) the block runs when `m` outputs any non-modifier key; the last key of `m` is one
+  simp only [producesActionKey_of_isActionMapping m hact, if_true]
   -- the states along the way
   have c := consume_spec s0 m h0
   simp only [List.nil_append] at c
